@@ -99,12 +99,18 @@ PROPS["C19"] = dict(
          "seeded timelines of sleep / tick / inbound data / outbound write / PONG / peer PING (contexts 0..20 bytes) / malformed PING/"
          "PONG events, v3 and v2; a trace-specification monitor keeps (last activity, outstanding PING) from the events it injected and "
          "judges every on_tick/on_network_bytes output (PING too early / missing, close too early / missing, PONG count and context, any "
-         "heartbeat output on v2) with a 1.5 ms undecided band around each threshold; distinct = distinct timelines. (egress) random "
+         "heartbeat output on v2) with a 1.5 ms undecided band around each threshold; distinct = distinct timelines. (pair) the monitored "
+         "engine talks to a second real engine under NULL / PLAIN / CURVE / NOISE_XX so that PING/PONG pass through the mechanism's framer; the "
+         "harness owns the two ordered byte streams and decides when the peer reads (a peer that never reads is dead), when data flows either "
+         "way, when the monitored engine ticks and when the peer (own heartbeat on in a third of the timelines) pings it; same specification, "
+         "plus: everything written must be decodable by the peer, a PING from the peer is answered with something it accepts (its next tick "
+         "pings again), data messages between heartbeats are conserved. (egress) random "
          "push/push_priority/partial-write histories of EgressBuffer: written bytes must parse as whole chunks, data FIFO, priority "
          "chunks ahead of unstarted data. (session) raw tcp peers that answer PINGs, stay mute, or only send data, against a real ROUTER.",
     assumptions=["engine activity stamps use the real clock, so timelines run in real time with thresholds judged outside a 1.5 ms band",
                  "session timing bound for a mute peer: 2*IVL+TIMEOUT+1.5 s"],
     shards=lambda tier, seed: sharded("c19", _n(tier, 8, 16), _n(tier, 120, 600))
+    + sharded("c19", _n(tier, 4, 8), _n(tier, 120, 600), extra=["--only", "pair"], name="c19-pair")
     + [dict(bin="c19", args=["--only", "egress"], timeout=600, name="c19-egress"),
        dict(bin="c19", args=["--only", "session"], timeout=300, name="c19-session", serial=True)],
     min_evaluations={"quick": 500, "thorough": 5000},
